@@ -129,7 +129,7 @@ _Bool vf_canary;            /* always 0: clauses `X || vf_canary` must FAIL when
     return p
 
 
-def input_harness(intype_c, tracking, call, extra_decl='', pre_call=''):
+def input_harness(intype_c, tracking, call, extra_decl='', pre_call='', base='_b0'):
     """harness building the exact-size window; `call` uses `&in`"""
     h = '''
 size_t w_n, w_k, w_byte, w_line, w_col; unsigned char w_b[8]; _Bool w_ret;
@@ -147,10 +147,10 @@ int main(void)
     if tracking == 'eager':
         h += '''  in._b0.m_begin = buf; in._b0.m_end = buf + g_n; in._b0.m_current.data = buf + k;
   w_byte = in._b0.m_current.byte; w_line = in._b0.m_current.line; w_col = in._b0.m_current.column;
-'''
+'''.replace('in._b0.', 'in.%s.' % base)
     else:
         h += '''  in._b0.m_begin.data = buf; in._b0.m_end = buf + g_n; in._b0.m_current = buf + k;
-'''
+'''.replace('in._b0.', 'in.%s.' % base)
     h += '''  __CPROVER_assume(VALID_PRE(&in));
   w_n = g_n; w_k = k;
   for (int i = 0; i < 8; ++i) if (k + i < g_n) w_b[i] = (unsigned char)buf[k + i];
@@ -204,8 +204,8 @@ NR = 4
 T_NONE = -1
 
 
-def comb_prelude(tracking):
-    p = prelude(tracking)
+def comb_prelude(tracking, base='_b0'):
+    p = prelude(tracking, base)
     p += '''
 /* ---- ghost protocol state ---- */
 #define NR %d
@@ -327,8 +327,8 @@ def comb_common(m, param='in', props_rewind=('C02',), exc_props=('C05',)):
     return out
 
 
-def comb_harness(intype_c, tracking, call):
-    return input_harness(intype_c, tracking, call,
+def comb_harness(intype_c, tracking, call, base='_b0'):
+    return input_harness(intype_c, tracking, call, base=base,
                          pre_call='  SET_ENTRY(&in); g_turn = 0; g_pos = OFF(CUR(&in)); g_done = 0; g_iter = 0; g_exc_obj = 0;\n'
                                   '  for (int i = 0; i < NR; ++i) { g_called[i] = 0; g_ncalls[i] = 0; }\n'
                                   '  vf_exc.pending = 0; __CPROVER_assume(vf_exc_counter < 1000000);\n')
